@@ -394,6 +394,11 @@ func (t *Tree) internalDelete(subpath []string, condition func(interface{}) bool
 			// An empty node holds nothing that could be deleted.
 			return false, nil
 		default:
+			if len(subpath) != 0 {
+				// The path continues past this leaf: nothing matches, exactly as
+				// for a query of the same path.
+				return false, nil
+			}
 			if condition(t.leafBranch) {
 				// The second parameter is an empty path that will be filled as recursion
 				// unwinds for this leaf that will be deleted in its parent.
